@@ -158,8 +158,8 @@ func init() {
 		ID:       "C01",
 		Title:    "Satisfies = Boolean truth of the expression under the allowed list",
 		Explorer: "E1 bounded-exhaustive tree x labelling x allowed-list enumeration vs R-bool over the implementation's single-term verdicts",
-		Rule: "S1: every binary tree with <= N leaves, every AND/OR labelling, every leaf labelling over 4 atoms (2 licences, 2 references), rendered fully parenthesised and with minimal parentheses, x every non-empty subset of the atoms as allowed list; " +
-			"S2: every tree <= 3 leaves over 13 rich terms (+, -only, -or-later, WITH, refs, case) x every allowed list up to a length bound over 15 overlapping entries (with repetition, re-spellings); " +
+		Rule: "S1: every binary tree with <= N leaves, every AND/OR labelling, every leaf labelling over 4 atoms (2 licences, 2 references), rendered fully parenthesised, with minimal parentheses and with flat right chains / parenthesised left groups, x every non-empty subset of the atoms as allowed list; " +
+			"S3: every shape and AND/OR labelling with all-distinct leaves up to 7 (thorough 8) leaves x {all, all-but-one, single} allowed lists; S2: every tree <= 3 leaves over 13 rich terms (+, -only, -or-later, WITH, refs, case) x every allowed list up to a length bound over 15 overlapping entries (with repetition, re-spellings); " +
 			"state = (expression text, allowed list), transition = one Satisfies call; non-trivial = the tree mentions >= 2 distinct terms and the truth assignment restricted to them is neither all-false nor all-true",
 		Assumptions: []string{
 			"truth of a leaf = exists allowed entry b with Satisfies(term,[b]) (the implementation's own single-term verdict, as the property states); the matching relation itself is C02's subject",
@@ -226,6 +226,9 @@ func c01Run(c *Ctx) {
 				if min != full {
 					texts = append(texts, min)
 				}
+				if as := t.RenderAssoc(atoms); as != full && as != min {
+					texts = append(texts, as)
+				}
 				as := t.AtomSet()
 				for _, expr := range texts {
 					if !c.Begin(expr) {
@@ -263,6 +266,83 @@ func c01Run(c *Ctx) {
 	}
 	c.Bound("S1", bnd)
 
+	// ---- S3: every shape and operator labelling with ALL-DISTINCT leaves, deeper than S1; allowed
+	// lists: everything, everything but one term, each single term (2n+1 truth assignments)
+	maxShape := 7
+	if thorough {
+		maxShape = 8
+	}
+	c.Bound("S3", map[string]any{"max_leaves": maxShape, "leaves": "all distinct, drawn in order from " + strings.Join(distinctAtoms, ","), "allowed": "all, all-but-one, singletons", "renderings": 3})
+	shapes := ShapesUpTo(maxShape)
+	s3single := directSingle(distinctAtoms)
+	for n := 3; n <= maxShape; n++ {
+		atoms := distinctAtoms[:n]
+		var lists [][]string
+		lists = append(lists, append([]string{}, atoms...))
+		for i := range atoms {
+			var l []string
+			for j, a := range atoms {
+				if j != i {
+					l = append(l, a)
+				}
+			}
+			lists = append(lists, l, []string{atoms[i]})
+		}
+		for _, t := range shapes[n] {
+			ti++
+			if !c.Mine(ti) {
+				continue
+			}
+			if c.Expired() {
+				return
+			}
+			c.Inc("trees")
+			texts := []string{t.RenderFull(distinctAtoms, true)}
+			for _, x := range []string{t.RenderMin(distinctAtoms), t.RenderAssoc(distinctAtoms)} {
+				dup := false
+				for _, y := range texts {
+					if x == y {
+						dup = true
+					}
+				}
+				if !dup {
+					texts = append(texts, x)
+				}
+			}
+			for _, expr := range texts {
+				if !c.Begin(expr) {
+					continue
+				}
+				for _, l := range lists {
+					msg, skip, truth, want := c01Check(t, distinctAtoms, expr, l, s3single)
+					c.Inc("states")
+					c.Inc("transitions")
+					c.Inc("evaluations")
+					if skip != "" {
+						c.Inc("skipped_" + strings.ReplaceAll(skip, " ", "_"))
+						c.Outcome("skipped")
+						continue
+					}
+					c.Inc("traces")
+					if truth != 0 && len(l) < n {
+						c.Inc("nontrivial")
+					}
+					if want {
+						c.Outcome("satisfied")
+					} else {
+						c.Outcome("unsatisfied")
+					}
+					if msg != "" {
+						c01Report(c, t, distinctAtoms, expr, l, msg)
+					}
+				}
+			}
+			c.Sample(func() any {
+				return map[string]any{"expr": texts[len(texts)-1], "allowed_lists": "all / all-but-one / singletons"}
+			})
+		}
+	}
+
 	// ---- S2
 	atoms := c01Rich
 	single := directSingle(atoms)
@@ -299,6 +379,9 @@ func c01Run(c *Ctx) {
 			texts := []string{full}
 			if min != full {
 				texts = append(texts, min)
+			}
+			if x := t.RenderAssoc(atoms); x != full && x != min {
+				texts = append(texts, x)
 			}
 			as := t.AtomSet()
 			for _, expr := range texts {
